@@ -344,3 +344,61 @@ def cases(tier):   # noqa: F811
     if tier == "thorough":
         cs += [BanditReinit(2, 4), BanditReinit(3, 1), BanditReinit(2, 3, arms=2)]
     return cs
+
+
+# --------------------------------------------------------------------------- the feature layer after a rebuild of the network
+
+
+class BanditFeatureLayer(Case):
+    """after a mutation that rebuilds the bandit's network (activation, architecture) - called directly or through
+    Mutations.mutation() - the layer whose gradients are the features (exp_layer) is the LIVE network's output layer, and the
+    stored matrix has one row per parameter of it"""
+    stubs = ("none: a real NeuralUCB / NeuralTS agent and the real Mutations methods; nothing symbolic (the decision step on symbolic features is the bandit-* cases' subject)",)
+    site = "Mutations/bandit-feature-layer"
+
+    def __init__(self, algo, how):
+        self.algo, self.how = algo, how
+        self.cls = {"UCB": NeuralUCB, "TS": NeuralTS}[algo]
+        self.functions = (Mutations.activation_mutation, Mutations.architecture_mutate)
+        self.name = f"bandit-{algo.lower()}-feature-layer-after-{how}"
+        self.bounds = {"algorithm": algo, "history": how}
+
+    def run(self, v):
+        from agilerl.hpo.mutation import get_exp_layer
+        torch.manual_seed(4)
+        try:
+            agent = self.cls(spaces.Box(-1, 1, (3,)), spaces.Discrete(2), net_config={"encoder_config": {"hidden_size": [4]}})
+        except Exception as ex:   # noqa: BLE001
+            raise HarnessError(f"could not build the agent: {type(ex).__name__}: {ex}")
+        agent.get_action(np.zeros((2, 3), dtype=np.float32))          # a used agent: the features have been computed once
+        m = Mutations(0, 1, 0, 0, 1, 0, rand_seed=3, activation_selection=["Tanh", "ELU"])
+        if self.how == "activation-mutation-direct":
+            agent = m.activation_mutation(agent)
+        elif self.how == "architecture-mutation-direct":
+            agent = m.architecture_mutate(agent)
+        else:
+            m2 = Mutations(0, 0, 0, 0, 1, 0, rand_seed=3, activation_selection=["Tanh", "ELU"]) if self.how == "activation-via-mutation()" else Mutations(0, 1, 0, 0, 0, 0, rand_seed=3)
+            agent = m2.mutation([agent])[0]
+        live = get_exp_layer(agent.actor)
+        n = sum(p.numel() for p in live.parameters() if p.requires_grad)
+        res = [Ob("exp_layer-is-the-live-network's-output-layer", agent.exp_layer is live, site=self.site),
+               Ob("stored-matrix-has-one-row-per-parameter-of-that-layer", tuple(agent.sigma_inv.shape) == (n, n) and agent.numel == n, site=self.site)]
+        ok = True
+        try:
+            a = agent.get_action(np.zeros((2, 3), dtype=np.float32))
+            ok = 0 <= int(np.asarray(a).reshape(-1)[0]) < 2
+        except Exception:   # noqa: BLE001
+            ok = False
+        res.append(Ob("the-agent-can-still-decide", ok, site=self.site))
+        return res
+
+
+_cases_reinit = cases
+
+
+def cases(tier):   # noqa: F811
+    cs = _cases_reinit(tier)
+    cs += [BanditFeatureLayer("UCB", "activation-mutation-direct"), BanditFeatureLayer("TS", "activation-via-mutation()"), BanditFeatureLayer("UCB", "architecture-via-mutation()")]
+    if tier == "thorough":
+        cs += [BanditFeatureLayer("TS", "activation-mutation-direct"), BanditFeatureLayer("UCB", "architecture-mutation-direct"), BanditFeatureLayer("TS", "architecture-via-mutation()")]
+    return cs
